@@ -178,6 +178,11 @@ def importer(text, case, d):
     from biom import Table, load_table
     how = case["import"]
     md = case["md"]
+    if how == "convert_hdf5" and md == "taxonomy" and any(
+            "" in (m.get("tax") or []) for m in case["table"]["obs_md"] or []):
+        # HDF5 holds lists of *non-empty* text (the empty string is its
+        # padding): an unnamed lineage level cannot take that route
+        how = "convert_json"
     pf = _split if md == "taxonomy" else (lambda x: x)
     if how in ("convert_hdf5",) and md == "taxonomy" and \
             case["colname"] != "taxonomy":
